@@ -40,7 +40,7 @@ func c17resolve(sym string, n int) int {
 }
 
 func c17alphabet() []c17op {
-	ops := []c17op{{"push", 0}, {"pushdup", 0}, {"pushreuse", 0}, {"pop", 0}, {"peek", 0}, {"empty", 0}}
+	ops := []c17op{{"push", 0}, {"pushdup", 0}, {"pushreuse", 0}, {"pushpeeked", 0}, {"pushlast", 0}, {"pop", 0}, {"peek", 0}, {"empty", 0}}
 	for i := range c17args {
 		ops = append(ops, c17op{"popn", i}, c17op{"peekn", i})
 	}
@@ -59,6 +59,7 @@ type c17ref struct {
 	pushes  int
 	lastStz string
 	shared  *UnAckedStz // one element object that the caller fills again for every "pushreuse"
+	maxId   int         // greatest sequence number seen on any entry so far (entries that left the queue included)
 }
 
 func c17payloads(q []Queueable) ([]string, bool) {
@@ -108,6 +109,28 @@ func c17apply(q *UnAckQueue, ref *c17ref, o c17op) (string, string) {
 			ref.shared.Id, ref.shared.Stz = 777, stz
 			el = ref.shared
 		}
+		if err := q.Push(el); err != nil {
+			return "push-error", err.Error()
+		}
+		ref.items = append(ref.items, stz)
+	case "pushpeeked", "pushlast":
+		// the caller hands back an element that it got from the queue (as is done to send a stanza again):
+		// it is one more insertion, with the payload of that element
+		var el Queueable
+		if o.kind == "pushpeeked" {
+			el = q.Peek()
+		} else if all := q.PeekN(n); len(all) > 0 {
+			el = all[len(all)-1]
+		}
+		if n == 0 || el == nil {
+			if n != 0 {
+				return "peek-wrong-element", "nothing returned from a queue that holds entries"
+			}
+			break
+		}
+		stz := el.(*UnAckedStz).Stz
+		ref.pushes++
+		ref.lastStz = stz
 		if err := q.Push(el); err != nil {
 			return "push-error", err.Error()
 		}
@@ -201,6 +224,18 @@ func c17apply(q *UnAckQueue, ref *c17ref, o c17op) (string, string) {
 		}
 		last = e.Id
 	}
+	// numbers increase in insertion order over the whole history: a new entry is numbered above every entry
+	// inserted before it, whether that one is still queued or not
+	if strings.HasPrefix(o.kind, "push") && len(q.Uslice) > 0 && len(q.Uslice) == n+1 {
+		if id := q.Uslice[len(q.Uslice)-1].Id; id <= ref.maxId {
+			return "id-not-above-earlier-entries", fmt.Sprintf("after %s the new entry is numbered %d, but an earlier entry was numbered %d (queue %s)", o, id, ref.maxId, c17snapshot(q))
+		}
+	}
+	for _, e := range q.Uslice {
+		if e.Id > ref.maxId {
+			ref.maxId = e.Id
+		}
+	}
 	// second read path: PeekN(len+3) must list the same payloads
 	all, _ := c17payloads(q.PeekN(len(ref.items) + 3))
 	if strings.Join(all, "|") != strings.Join(ref.items, "|") {
@@ -222,6 +257,7 @@ func c17canon(q *UnAckQueue, ref *c17ref) string {
 	if len(ref.items) > 0 && ref.lastStz == ref.items[len(ref.items)-1] {
 		sb.WriteString("L")
 	}
+	fmt.Fprintf(&sb, "|max=%d", ref.maxId)
 	// any further scalar bookkeeping of the queue (e.g. a persistent sequence counter) is part of the state
 	rv := reflect.ValueOf(q).Elem()
 	for i := 0; i < rv.NumField(); i++ {
